@@ -440,7 +440,10 @@ def find_conflict(fl, case, same):
                 if e:
                     return None, e
                 # the induction variable is written (mv iv <- lb) at loop entry while everything that is
-                # live throughout the body and the carried inputs are live
+                # live throughout the body and the carried inputs (iter operands) are live
+                for v in sorted((through | set(o["iters"]) | {o["ub"]}) - {bargs[0]}):
+                    if same(bargs[0], v):
+                        return None, f"{where}: the induction variable {bargs[0]} is written at loop entry while value {v} is live"
                 live = through | set(operands_of(o))
             else:
                 live |= set(operands_of(o))
